@@ -1,21 +1,35 @@
 //! Scratch experiments (not a registered check).
 use serde_json::json;
-use crate::hist::{self, Driver, Op};
+use crate::hist::{self, Ctx, Driver, Enc, Op, Signer};
 use crate::rpc::Inst;
+use crate::asm;
 
 pub fn run() {
-    let net = std::env::var("EXP_NET").unwrap_or("bitcoin".into());
-    let base: u64 = std::env::var("EXP_BASE").ok().and_then(|x| x.parse().ok()).unwrap_or(253);
-    crate::setup_env(&net, false);
+    crate::setup_env("regtest", true);
     let dir = crate::rpc::fresh_dir("exp");
     let mut d = Driver::new(Inst::open(&dir).unwrap());
-    d.mine_to(base);
-    println!("init at {}: {}", base, d.exec(Op::Init { hash: hist::bh(1), ts: 5, height: base }).short());
-    println!("code at controller: {}", d.inst.call("eth_getCode", json!([hist::CONTROLLER])).short().len());
-    d.exec(Op::Mine { n: 3, ts: 6 });
-    let h = d.next_height();
-    println!("init again at {}: {}", h, d.exec(Op::Init { hash: hist::bh(2), ts: 9, height: h }).short());
-    println!("height now {}", d.inst.call("eth_blockNumber", json!([])).short());
-    println!("init again same hash at {}: {}", base, d.exec(Op::Init { hash: hist::bh(1), ts: 5, height: base }).short());
+    d.exec(Op::Init { hash: hist::ZERO_HASH.into(), ts: 1, height: 0 });
+    let pk = "5120aaaaaaaaaaaaaaaaaaaaaaaaaaaaaaaaaaaaaaaaaaaaaaaaaaaaaaaaaaaaaaaa".to_string();
+    let h1 = hist::bh(0xe1);
+    let r = d.exec(Op::Deploy { pk, data: hist::hx(&asm::tool_init()), enc: Enc::Hex, ctx: Ctx { ts: 2, hash: h1.clone(), idx: 0 }, iid: "t".into(), len: 100_000, txid: hist::ZERO_HASH.into() });
+    let tool = hist::created_address(&r).unwrap();
+    d.exec(Op::Finalise { ts: 2, hash: h1, count: 1 });
+    let s = Signer::new(9);
+    let chain = crate::rpc::chain_id_for("regtest");
+    let t = hist::parse_addr(&tool);
+    let h2 = hist::bh(0xe2);
+    let raw1 = s.sign(Some(chain), 1, Some(t), &asm::tool_call(asm::OP_PROBE, &[asm::word_u64(0x1000), asm::word_u64(1), asm::word_u64(0)], &[]));
+    let txid = format!("0x{:064x}", 0x7a7a7a7au64);
+    println!("park: {}", d.exec(Op::Transact { raw: format!("0x{}", raw1), enc: Enc::Hex, ctx: Ctx { ts: 3, hash: h2.clone(), idx: 0 }, iid: "p1".into(), len: 100_000, txid: txid.clone() }).short());
+    d.exec(Op::Finalise { ts: 3, hash: h2, count: 0 });
+    if std::env::var("EXP_COMMIT").is_ok() { println!("commit {}", d.exec(Op::Commit).short()); }
+    let h3 = hist::bh(0xe3);
+    let raw0 = s.sign(Some(chain), 0, Some(t), &asm::tool_call(asm::OP_INC, &[asm::word_u64(2)], &[]));
+    let r = d.exec(Op::Transact { raw: format!("0x{}", raw0), enc: Enc::Hex, ctx: Ctx { ts: 4, hash: h3.clone(), idx: 0 }, iid: "p0".into(), len: 100_000, txid: hist::ZERO_HASH.into() });
+    println!("drain: {} receipts", hist::receipts_in(&r).len());
+    d.exec(Op::Finalise { ts: 4, hash: h3, count: 2 });
+    for k in [10u64, 11, 12] {
+        println!("slot {:x} = {}", 0x1000 + k, d.inst.call("eth_getStorageAt", json!([tool, format!("0x{:x}", 0x1000 + k)])).short());
+    }
     crate::rpc::remove_dir(&crate::rpc::process_work_dir("exp"));
 }
